@@ -525,6 +525,22 @@ func runNative(dir string, ov map[string][]byte, harnessNames []string, vecDir s
 			res[r.File] = r
 		}
 	}
+	// a panic in a goroutine of the code under test (or a fatal runtime error) kills the test process: the
+	// vector that was running is the last one started; it reproduced as a panic
+	text := string(outBuf)
+	if i := strings.LastIndex(text, "VERIF-START "); i >= 0 {
+		rest := text[i+len("VERIF-START "):]
+		file := strings.TrimSpace(strings.SplitN(rest, "\n", 2)[0])
+		if _, ok := res[file]; !ok {
+			for _, marker := range []string{"panic: ", "fatal error: "} {
+				if j := strings.Index(rest, marker); j >= 0 {
+					msg := strings.SplitN(rest[j:], "\n", 2)[0]
+					res[file] = nativeResult{File: file, Status: "panic", Panic: msg + " (the test process crashed)"}
+					break
+				}
+			}
+		}
+	}
 	return res, nil
 }
 
